@@ -4,7 +4,7 @@
    and of the net_if_addrs() post-processing), documented contract: C20/Spec.v, generated
    tables (slot maps, probed slot usage, probed ladders, exposed names, front-end rows of the
    CURRENT code): Gen/C20_Tables.v, decidable checks: C20/Check.v. *)
-From PV Require Import C20.Check C20.Proofs C20.ProofsFront.
+From PV Require Import C20.Check C20.ProofsModel C20.Proofs C20.ProofsFront.
 From PV Require Import Gen.C20_Tables.
 
 (* the model of the five ladders + method handlers: for EVERY platform, method name, failing
@@ -12,7 +12,7 @@ From PV Require Import Gen.C20_Tables.
    what comes out (NoSuchProcess / ZombieProcess / AccessDenied carrying pid and cached name,
    other errors unchanged, PID-0 rule on BSD and Solaris, the commented fall-backs) *)
 Theorem C20_ladder_model : forall p meth site c r,
-  err_ok p (c_err c) = true -> known_pid0_unlisted p meth site c = false ->
+  err_ok p (c_err c) = true -> known_class p meth site c = false ->
   demanded p meth site c = Some r -> method_outcome p meth site c = r.
 Proof. exact ladder_model. Qed.
 Print Assumptions C20_ladder_model.
@@ -30,6 +30,16 @@ Theorem C20_pid0_unlisted_refuted :
 Proof. exact pid0_unlisted_refuted. Qed.
 Print Assumptions C20_pid0_unlisted_refuted.
 
+(* finding (excluded above, second disjunct of known_class): Windows memory_maps() is a generator whose
+   try/except covers proc_memory_maps() only; a failure of QueryDosDevice() (path conversion of a row)
+   leaves it as the bare error, while open_files() translates the same failure *)
+Theorem C20_win_mmaps_refuted :
+  exists c, err_ok Windows (c_err c) = true /\ demanded Windows "memory_maps" "QueryDosDevice" c = Some RDenied
+            /\ method_outcome Windows "memory_maps" "QueryDosDevice" c = RRaw
+            /\ method_outcome Windows "open_files" "QueryDosDevice" c = RDenied.
+Proof. exact win_mmaps_refuted. Qed.
+Print Assumptions C20_win_mmaps_refuted.
+
 (* what fix a2d103c repaired: with Windows ppid() undecorated (legacy variant of the model) a
    permission failure of ppid_map() left as the bare error; the present model gives AccessDenied *)
 Theorem C20_ppid_unwrapped_legacy_refuted :
@@ -42,7 +52,7 @@ Print Assumptions C20_ppid_unwrapped_legacy_refuted.
 (* the CODE (probed over the stub native layer, every platform x method x native call x error
    x state x pid): every outcome meets the contract, with pid and cached name carried *)
 Theorem C20_ladder_contract : forall b, In b ladder_blocks ->
-  Forall2 (fun c g => known_pid0_unlisted (l_plat b) (l_meth b) (l_site b) c = false ->
+  Forall2 (fun c g => known_class (l_plat b) (l_meth b) (l_site b) c = false ->
                       gout_ok (demanded (l_plat b) (l_meth b) (l_site b) c) g = true) (conds (l_plat b)) (l_outs b).
 Proof. exact ladder_contract. Qed.
 Print Assumptions C20_ladder_contract.
@@ -52,6 +62,12 @@ Theorem C20_pid0_unlisted_in_tables :
     forallb2 (fun c g => gout_ok (demanded (l_plat b) (l_meth b) (l_site b) c) g) (conds (l_plat b)) (l_outs b) = false.
 Proof. exact pid0_unlisted_in_tables. Qed.
 Print Assumptions C20_pid0_unlisted_in_tables.
+
+Theorem C20_win_mmaps_in_tables :
+  exists b, In b ladder_blocks /\ l_plat b = Windows /\ l_meth b = "memory_maps"%string /\ l_site b = "QueryDosDevice"%string /\
+    forallb2 (fun c g => gout_ok (demanded (l_plat b) (l_meth b) (l_site b) c) g) (conds (l_plat b)) (l_outs b) = false.
+Proof. exact win_mmaps_in_tables. Qed.
+Print Assumptions C20_win_mmaps_in_tables.
 
 (* the zombie test, for EVERY native status code of every platform's PROC_STATUSES (x method x native
    call x pid in {7,0}): ESRCH gives ZombieProcess exactly for the codes that mean zombie (on OpenBSD
@@ -78,6 +94,49 @@ Theorem C20_ladder_tables_equal_model : forall b, In b ladder_blocks ->
 Proof. exact ladder_tables_equal_model. Qed.
 Print Assumptions C20_ladder_tables_equal_model.
 
+(* TWO native calls in one method: the first fails with e1, the documented second route (Windows
+   "fast call denied -> proc_info", Windows cmdline "PEB denied -> non-PEB query", Solaris uids/gids
+   "cred denied -> psinfo") fails with e2 -- for EVERY method/call names, e1, e2, state, pid the model gives
+   what the contract demands of the failure that ends the method *)
+Theorem C20_pair_model : forall p meth site1 site2 e1 e2 s z r,
+  err_ok p e1 = true -> err_ok p e2 = true -> pair_known p meth site1 site2 e1 e2 s z = false ->
+  pair_demanded p meth site1 site2 e1 e2 s z = Some r -> pair_outcome p meth site1 site2 e1 e2 s z = r.
+Proof. exact pair_model. Qed.
+Print Assumptions C20_pair_model.
+
+(* retry_error_partial_copy: ERROR_PARTIAL_COPY k times then success / another error, for every k *)
+Theorem C20_retry_model : forall meth site k then_ s z r,
+  (forall e, then_ = Some e -> err_ok Windows e = true) -> known_win_mmaps Windows meth site = false ->
+  retry_demanded meth site k then_ s z = Some r -> retry_outcome meth site k then_ s z = r.
+Proof. exact retry_model. Qed.
+Print Assumptions C20_retry_model.
+
+(* wait(timeout=0): TimeoutExpired(pid, name) while the PID is there, a value once it is gone *)
+Theorem C20_wait_model : forall p w s,
+  (w = WNativeTimeout -> p = Windows) -> wait_outcome p w s = wait_demanded p w s.
+Proof. exact wait_model. Qed.
+Print Assumptions C20_wait_model.
+
+(* the CODE on the pairs (all e1 x e2 x state x pid of every documented pair), on the retry
+   counts 1/32/33 and on wait(): contract met and equal to the model; every documented pair probed *)
+Theorem C20_pair_contract : forall b, In b pair_blocks ->
+  Forall2 (fun q g => match q with (e1, e2, s, z) =>
+             (pair_known (pb_plat b) (pb_meth b) (pb_site1 b) (pb_site2 b) e1 e2 s z = false ->
+              gout_ok (pair_demanded (pb_plat b) (pb_meth b) (pb_site1 b) (pb_site2 b) e1 e2 s z) g = true)
+             /\ gout_ok (Some (pair_outcome (pb_plat b) (pb_meth b) (pb_site1 b) (pb_site2 b) e1 e2 s z)) g = true end)
+          (pair_conds (pb_plat b)) (pb_outs b).
+Proof. exact pair_contract. Qed.
+Print Assumptions C20_pair_contract.
+Theorem C20_pair_blocks_complete : pblocks_complete pair_blocks = true.
+Proof. exact pair_blocks_complete. Qed.
+Print Assumptions C20_pair_blocks_complete.
+Theorem C20_retry_rows_ok : forall r, In r retry_rows -> rrow_ok r = true.
+Proof. exact retry_rows_ok. Qed.
+Print Assumptions C20_retry_rows_ok.
+Theorem C20_wait_rows_ok : (forall r, In r wait_rows -> wrow_ok r = true) /\ wrows_complete wait_rows = true.
+Proof. exact wait_rows_ok. Qed.
+Print Assumptions C20_wait_rows_ok.
+
 (* kinfo_proc_map / pidtaskinfo_map / proc_info_map / pinfo_map: each index 0..n-1 exactly once *)
 Theorem C20_slot_maps_bijective : forall m, In m slot_maps ->
   forall i, In i (zseq 0 (List.length (m_slots m))) -> count_z i (map snd (m_slots m)) = 1%nat.
@@ -94,7 +153,9 @@ Print Assumptions C20_slot_maps_complete.
 
 (* every probed method with a documented layout returns that shape, those field names, each
    field filled from the documented native slot (its position in the native record), and the
-   documented tuple type *)
+   documented tuple type; this includes the list/dict/row answers (cmdline, environ,
+   open_files, net_connections, threads, memory_maps): element by element from the native answer, SFun = a
+   function of exactly the named native slots (enum, address pair, hex, status-by-type) *)
 Theorem C20_methods_use_documented_slots : forall u d, In u usage_rows ->
   doc_layout (u_plat u) (u_meth u) (u_variant u) = Some d ->
   fields_ok u d = true /\ type_ok u d = true.
@@ -121,6 +182,23 @@ Theorem C20_names_all_platforms : forall p, In p all_plats -> exists n, In n nam
 Proof. exact names_all_platforms. Qed.
 Print Assumptions C20_names_all_platforms.
 
+(* cpu_times() / virtual_memory() / swap_memory() / disk_io_counters() / net_io_counters() of every platform's
+   front end: the named tuple has exactly the fields the documentation gives for that platform
+   (Solaris/AIX cpu_times and virtual_memory excluded: finding -- "nice"/"active"/"inactive" are documented
+   for UNIX, "iowait" for Linux only); all 7 x 5 rows present *)
+Theorem C20_names_fields_documented : forall r, In r sysfield_rows ->
+  known_sys_fields (sf_plat r) (sf_fn r) = false -> same_set (sf_fields r) (doc_sys_fields (sf_plat r) (sf_fn r)) = true.
+Proof. exact names_fields_documented. Qed.
+Print Assumptions C20_names_fields_documented.
+Theorem C20_names_fields_complete : sfrows_complete sysfield_rows = true.
+Proof. exact names_fields_complete. Qed.
+Print Assumptions C20_names_fields_complete.
+Theorem C20_sys_fields_unix_refuted : forall p, In p [SunOS; AIX] ->
+  exists r, In r sysfield_rows /\ sf_plat r = p /\ sf_fn r = "cpu_times"%string /\ sfrow_doc_ok r = false
+            /\ mem "nice" (sf_fields r) = false /\ mem "iowait" (sf_fields r) = true.
+Proof. exact sys_fields_unix_refuted. Qed.
+Print Assumptions C20_sys_fields_unix_refuted.
+
 (* net_if_addrs() post-processing: probed rows equal the model ... *)
 Theorem C20_frontend_rows_equal_model : forall r, In r nic_rows -> nic_ok r = true.
 Proof. exact frontend_rows_equal_model. Qed.
@@ -128,15 +206,30 @@ Print Assumptions C20_frontend_rows_equal_model.
 
 (* ... whose Windows IPv4 broadcast address is "all host bits set" for EVERY address and prefix length ... *)
 Theorem C20_frontend_broadcast : forall a k, 0 <= a < 2 ^ 32 -> 0 <= k <= 32 ->
-  post_bcast Windows {| n_fam := 0; n_addr := []; n_addrz := a; n_maskz := Some (netmask_of 32 k); n_bcast := None |}
+  post_bcast Windows {| n_fam := 0; n_addr := []; n_addrz := a; n_mask := MAddr (netmask_of 32 k); n_bcast := None |}
   = Some (spec_bcast 32 a k).
 Proof. exact frontend_broadcast. Qed.
 Print Assumptions C20_frontend_broadcast.
 
+(* ... also for IPv4 and IPv6 when the netmask arrives as a prefix length ("24", "64") ... *)
+Theorem C20_frontend_broadcast_prefix : forall fam w a k, (fam = 0 /\ w = 32) \/ (fam = 1 /\ w = 128) ->
+  0 <= a < 2 ^ w -> 0 <= k <= w ->
+  post_bcast Windows {| n_fam := fam; n_addr := []; n_addrz := a; n_mask := MPrefix k; n_bcast := None |}
+  = Some (spec_bcast w a k).
+Proof. exact frontend_broadcast_prefix. Qed.
+Print Assumptions C20_frontend_broadcast_prefix.
+
+(* ... finding: but an IPv6 netmask in ADDRESS form (the only form psutil's native layers produce) is never
+   turned into a broadcast address: the row keeps whatever broadcast it had (None on Windows) *)
+Theorem C20_ipv6_addrform_refuted : forall a k b,
+  post_bcast Windows {| n_fam := 1; n_addr := []; n_addrz := a; n_mask := MAddr (netmask_of 128 k); n_bcast := b |} = b.
+Proof. exact ipv6_addrform_refuted. Qed.
+Print Assumptions C20_ipv6_addrform_refuted.
+
 (* ... and whose MAC padding gives six octets for EVERY MAC of 1..6 separator-free octets, on every platform *)
 Theorem C20_frontend_mac : forall p os, let sep := match p with Windows => 45 | _ => 58 end in
   (1 <= List.length os <= 6)%nat -> Forall (fun o => count_byte sep o = 0%nat) os ->
-  post_addr p {| n_fam := 2; n_addr := join_octets sep os; n_addrz := 0; n_maskz := None; n_bcast := None |}
+  post_addr p {| n_fam := 2; n_addr := join_octets sep os; n_addrz := 0; n_mask := MNone; n_bcast := None |}
   = spec_mac sep os.
 Proof. exact frontend_mac. Qed.
 Print Assumptions C20_frontend_mac.
